@@ -58,6 +58,9 @@ pub fn split_user_filename(xname: &str) -> Result<(u8,String),DYNERR> {
     let parts: Vec<&str> = xname.split(':').collect();
     if parts.len()==1 {
         return Ok((0,xname.to_string()));
+    } else if parts.len()>2 {
+        log::error!("more than one colon in file name");
+        return Err(Box::new(types::Error::BadFormat));
     } else {
         if let Ok(user) = u8::from_str(parts[0]) {
             if user<types::USER_END {
